@@ -50,6 +50,10 @@ def model : List String → String
   response that starts at the hidden input is exactly that one tag, nothing follows it on its
   line, and its value decodes to the normalised destination
 * `inert <hex v>` — `v` is free of `" < > '` (`c18_esc_inert`, `c18_base64_inert`)
+* `resp <hex Content-Type or -> <hex first 512 body bytes> <n elements> <n attributes>` —
+  `responseOK` (`c18_failure_text_inert`, `c18_labelled_text_inert`): canary-named markup in a
+  body is only acceptable when the response is not a markup document (Content-Type and body
+  judged together)
 * `canary <n elements> <n attributes>` — number of canary-named elements / attributes the
   HTML5 tokenizer found in a response -/
 def judge : List String → String
@@ -69,6 +73,14 @@ def judge : List String → String
       if s.toList.any (fun c => c == '"' || c == '<' || c == '>' || c == '\'') then "viol markup-char"
       else "ok"
     | none => "bad-op"
+  | ["resp", hct, hbody, e, a] =>
+    -- the body prefix is taken byte-wise (only ASCII matters for sniffing)
+    match unhex hct, unhexB hbody, e.toNat?, a.toNat? with
+    | some ct, some body, some ne, some na =>
+      if responseOK (if ct.isEmpty then none else some ct.toList)
+          (body.map fun b => Char.ofNat b.toNat) ne na then "ok"
+      else s!"viol markup-document elements={ne} attributes={na}"
+    | _, _, _, _ => "bad-op"
   | ["canary", e, a] =>
     match e.toNat?, a.toNat? with
     | some ne, some na => if ne == 0 && na == 0 then "ok" else s!"viol elements={ne} attributes={na}"
